@@ -2,7 +2,7 @@
 """Regenerates MANIFEST.json from engines/*.json and tools/claims.json (per-property level text)."""
 import json, glob, os
 V = os.path.dirname(os.path.dirname(os.path.abspath(__file__)))
-claims = json.load(open(os.path.join(V, "tools", "claims.json")))
+claims = {os.path.basename(p)[:-5]: json.load(open(p)) for p in glob.glob(os.path.join(V, "tools", "claims", "*.json"))}
 engines = [json.load(open(p)) for p in sorted(glob.glob(os.path.join(V, "engines", "*.json")))]
 props = [json.loads(l) for l in open(os.path.join(V, "properties.jsonl"))]
 serving = {}
